@@ -85,14 +85,18 @@ Ltac unfold_cast :=
   cbv [cast_emit is_runtime negb vec_of retag mkvec to_kind guard rsz slv enc conv_val].
 
 (** ** documented conversions: the emitted cast computes the documented value, whatever VHDL object holds the target *)
+Definition view_ok (src tgt : cty) (k : vk) : bool := is_runtime src || ctor tgt (retag k tgt).
+
 Theorem doc_value src tgt k v :
-  wfw src -> wfw tgt -> doc_ok src tgt = true -> in_range src v ->
+  wfw src -> wfw tgt -> doc_ok src tgt = true -> view_ok src tgt k = true -> in_range src v ->
   ceval (cast_emit (retag k tgt) tgt src) (enc src v) = Ok (enc (retag k tgt) (conv_val src tgt v)).
 Proof.
-  intros Ws Wt Hd Hv.
+  intros Ws Wt Hd Hk Hv. unfold view_ok in Hk.
   destruct src as [| |n|n|n| |z|l b| |]; destruct tgt as [| |m|m|m| |z'|l' b'| |];
     cbn [doc_ok] in Hd; try discriminate Hd; cbn [wfw in_range] in *;
-    try (destruct k; unfold_cast; reflexivity).
+    try (destruct k; cbn [is_runtime orb retag vec_of mkvec ctor trial] in Hk;
+         rewrite ?N.ltb_irrefl in Hk; try discriminate Hk;
+         unfold_cast; cbn [ctor trial]; rewrite ?N.eqb_refl, ?N.leb_refl; reflexivity).
   all: try (destruct k; unfold_cast; cbn [ceval bind eval_fn1 eval_binop compare is_eqop]; destruct Hv as [-> | ->]; reflexivity).
   all: cmp.
   (* vector -> vector, vector -> Integer *)
@@ -156,12 +160,15 @@ Definition dep_stmt (src tgt : cty) : bool :=
   end.
 
 Theorem matrix_stmt src tgt k :
-  is_target tgt = true -> dep_stmt src tgt = false -> stmt_ok (retag k tgt) src tgt = doc_ok src tgt.
+  is_target tgt = true -> dep_stmt src tgt = false -> view_ok src tgt k = true ->
+  stmt_ok (retag k tgt) src tgt = doc_ok src tgt.
 Proof.
-  intros Ht Hdep.
+  intros Ht Hdep Hk. unfold view_ok in Hk.
   destruct src as [| |n|n|n| |z|l b| |]; destruct tgt as [| |m|m|m| |z'|l' b'| |];
     cbn [is_target dep_stmt] in *; try discriminate; destruct k;
-    unfold stmt_ok, emits; unfold_cast; cbn [trial doc_ok]; rewrite ?andb_true_r, ?andb_false_r;
+    cbn [is_runtime orb retag vec_of mkvec ctor trial] in Hk; rewrite ?N.ltb_irrefl in Hk; try discriminate Hk;
+    unfold stmt_ok, emits; unfold_cast; cbn [ctor trial doc_ok];
+    rewrite ?andb_true_r, ?andb_false_r, ?N.eqb_refl, ?N.leb_refl;
     try reflexivity;
     try (apply negb_false_iff in Hdep; unfold int32 in Hdep; rewrite Hdep; reflexivity);
     split_if; try reflexivity; try lia.
@@ -233,7 +240,9 @@ Ltac crunch :=
     [ progress (cbn -[N.eqb N.leb N.ltb Z.eqb Z.leb Z.ltb pow2 smin smax ones int_min int_max])
     | progress (rewrite ?N.eqb_refl, ?N.leb_refl, ?N.ltb_irrefl, ?andb_true_r, ?andb_false_r)
     | progress split_if
-    | match goal with |- context [match (if ?c then _ else _) with _ => _ end] => destruct c end ];
+    | match goal with E : ?c = _ |- context [?c] => rewrite E end
+    | match goal with |- context [match (if ?c then _ else _) with _ => _ end] =>
+        let E := fresh "E" in destruct c eqn:E end ];
   try reflexivity; try lia.
 
 Theorem matrix_merge_a src tgt :
@@ -246,3 +255,212 @@ Proof.
     unfold merge_ok, join, join_adjust, redirect_ok, stmt_ok, emits, cast_emit; crunch;
     try (rewrite ?Hdep; crunch).
 Qed.
+
+Theorem matrix_merge_b src tgt :
+  is_target tgt = true -> dep_merge_b src tgt = false -> merge_ok tgt src tgt = doc_ok src tgt.
+Proof.
+  intros Ht Hdep.
+  destruct src as [| |n|n|n| |z|l b| |]; destruct tgt as [| |m|m|m| |z'|l' b'| |];
+    cbn [is_target dep_merge_b dep_merge_a dep_stmt] in *; try discriminate;
+    try (apply negb_false_iff in Hdep; unfold int32 in Hdep; cbn [doc_ok] in Hdep);
+    unfold merge_ok, join, join_adjust, redirect_ok, stmt_ok, emits, cast_emit; crunch;
+    try (cbn [doc_ok] in Hdep; rewrite ?Hdep; crunch);
+    try (cbn [doc_ok] in Hdep; apply N.leb_gt in Hdep; lia).
+Qed.
+
+(** ** merges: the join type of two options, as coded *)
+Definition dep_join (a r : cty) : bool :=
+  match a, r with
+  | CInteger, (CU _ | CS _) => true                            (* Unsigned[n](Integer placeholder 0) succeeds *)
+  | (CIntLit _ | CStrLit _ _), CBool => negb (doc_ok a r)      (* bool(x) *)
+  | (CU n | CS n), CInteger => negb (doc_ok a r)
+  | CIntLit z, CInteger => negb (int32 z)
+  | (CBV _ | CU _ | CS _ | CInteger), CBool | CInteger, CBit => true   (* never joined: excluded for the proof only *)
+  | _, _ => false
+  end.
+
+Theorem join_sound a b r :
+  join a b = Some r -> dep_join a r = false -> dep_join b r = false -> doc_ok a r = true /\ doc_ok b r = true.
+Proof.
+  intros Hj Ha Hb.
+  assert (Hc : ctor a r = true /\ ctor b r = true /\ is_target r = true).
+  { unfold join in Hj.
+    destruct a as [| |n|n|n| |z|l c| |]; destruct b as [| |m|m|m| |z'|l' c'| |]; try discriminate Hj;
+      cbn [is_runtime join_adjust vec_of] in Hj;
+      repeat match type of Hj with
+             | context [(?x =? ?y)%N] => destruct (N.eqb_spec x y); subst
+             end; try discriminate Hj;
+      match type of Hj with
+      | (if ?c then _ else _) = _ => destruct c eqn:E; [|discriminate Hj]
+      end; injection Hj as <-; apply andb_prop in E; destruct E as [E1 E2]; repeat split; try (assumption || reflexivity). }
+  destruct Hc as [Ca [Cb Tr]].
+  assert (G : forall x, ctor x r = true -> dep_join x r = false -> doc_ok x r = true).
+  { clear - Tr. intros x Cx Dx.
+    destruct x as [| |n|n|n| |z|l c| |]; destruct r as [| |m|m|m| |z'|l' c'| |];
+      cbn [is_target dep_join ctor trial doc_ok] in *; try discriminate; try reflexivity; try assumption;
+      try (apply negb_false_iff in Dx; unfold int32 in Dx; exact Dx). }
+  split; apply G; assumption.
+Qed.
+
+(** ** all forms *)
+
+Definition self_kind (t : cty) : vk := match t with CU _ => KU | CS _ => KS | _ => KB end.
+
+Lemma retag_self t : retag (self_kind t) t = t.
+Proof. destruct t; reflexivity. Qed.
+
+Lemma view_self src t : is_target t = true -> view_ok src t (self_kind t) = true.
+Proof.
+  intros Ht. unfold view_ok. rewrite retag_self. destruct t; try discriminate Ht; cbn [ctor trial];
+    rewrite ?N.eqb_refl, ?N.leb_refl; apply orb_true_r.
+Qed.
+
+(** does the form exist for this pair at all *)
+Definition applies (f : form) (src tgt : cty) : bool :=
+  is_target tgt &&
+  match f with
+  | FSlice _ => match vec_of tgt with Some _ => true | None => false end
+  | FElem _ => match tgt with CBit => true | _ => false end
+  | FDeclStatic => negb (is_runtime src)
+  | FPortOut => is_runtime src
+  | _ => true
+  end.
+
+(** the exact guard: where the decision of the code differs from the documented matrix, per form *)
+Definition departs (f : form) (src tgt : cty) : bool :=
+  match f with
+  | FNextOp | FNextAttr | FValueOp | FValueAttr | FPushOp | FPushAttr | FElem _ => dep_stmt src tgt
+  | FSlice k => dep_stmt src tgt || negb (view_ok src tgt k) && doc_ok src tgt   (* constant into a U view of an S root *)
+  | FDeclSig | FDeclVar | FDeclStatic => dep_decl src tgt
+  | FPortIn => dep_port_in src tgt
+  | FPortOut =>                                  (* the check runs in the opposite direction: only identities agree *)
+      match src, tgt with
+      | CBit, CBit | CBool, CBool | CInteger, CInteger => false
+      | CBV n, CBV m | CU n, CU m | CS n, CS m => negb (n =? m)%N
+      | _, _ => true
+      end
+  | FIfA | FRetA => dep_merge_a src tgt
+  | FIfB | FRetB => dep_merge_b src tgt
+  end.
+
+Theorem matrix_partial f src tgt :
+  applies f src tgt = true -> departs f src tgt = false -> assign_ok f src tgt = doc_ok src tgt.
+Proof.
+  intros Ha Hd. unfold applies in Ha. apply andb_prop in Ha. destruct Ha as [Ht Ha].
+  assert (S : dep_stmt src tgt = false -> stmt_ok tgt src tgt = doc_ok src tgt).
+  { intros D. rewrite <- (retag_self tgt) at 1. apply matrix_stmt; [exact Ht|exact D|apply view_self; exact Ht]. }
+  destruct f; cbn [assign_ok departs] in *; try (apply S; exact Hd).
+  - (* slice *) destruct (vec_of tgt) eqn:V; [|discriminate Ha].
+    apply orb_false_elim in Hd. destruct Hd as [D1 D2].
+    destruct (view_ok src tgt root) eqn:Vk.
+    + apply matrix_stmt; assumption.
+    + cbn [negb andb] in D2. rewrite D2.
+      unfold stmt_ok, emits, cast_emit. unfold view_ok in Vk. apply orb_false_elim in Vk. destruct Vk as [R C].
+      rewrite R, C. cbn [negb]. apply andb_false_r.
+  - (* element *) destruct tgt; try discriminate Ha. apply S; exact Hd.
+  - apply matrix_decl; assumption.
+  - apply matrix_decl; assumption.
+  - apply matrix_static; [exact Ht|apply negb_true_iff; exact Ha|exact Hd].
+  - apply matrix_port_in; assumption.
+  - (* port_out *) destruct src, tgt; try discriminate Hd; cbn [trial doc_ok]; try reflexivity;
+      apply negb_false_iff in Hd; apply N.eqb_eq in Hd; subst; rewrite ?N.eqb_refl, ?N.leb_refl; reflexivity.
+  - apply matrix_merge_a; assumption.
+  - apply matrix_merge_b; assumption.
+  - apply matrix_merge_a; assumption.
+  - apply matrix_merge_b; assumption.
+Qed.
+
+(** forms whose emitted text is  target <= format_cast(target, source) *)
+Definition cast_form (f : form) : bool :=
+  match f with
+  | FNextOp | FNextAttr | FValueOp | FValueAttr | FPushOp | FPushAttr | FSlice _ | FElem _ | FDeclSig | FDeclVar => true
+  | _ => false
+  end.
+
+Theorem value_ok f src tgt v :
+  cast_form f = true -> applies f src tgt = true -> departs f src tgt = false -> assign_ok f src tgt = true ->
+  wfw src -> wfw tgt -> in_range src v ->
+  ceval (cast_emit (root_kind f tgt) tgt src) (enc src v) = Ok (enc (root_kind f tgt) (conv_val src tgt v)).
+Proof.
+  intros Hc Ha Hd Hok Ws Wt Hv. rewrite (matrix_partial f src tgt Ha Hd) in Hok.
+  assert (Ht : is_target tgt = true) by (unfold applies in Ha; apply andb_prop in Ha; tauto).
+  assert (S : ceval (cast_emit tgt tgt src) (enc src v) = Ok (enc tgt (conv_val src tgt v))).
+  { rewrite <- (retag_self tgt) at 1 3. apply doc_value; try assumption. apply view_self; exact Ht. }
+  destruct f; try discriminate Hc; cbn [root_kind]; try exact S.
+  cbn [departs] in Hd. apply orb_false_elim in Hd. destruct Hd as [_ D2]. rewrite Hok, andb_true_r in D2.
+  apply negb_false_iff in D2. apply doc_value; assumption.
+Qed.
+
+Theorem no_truncation f src tgt v :
+  applies f src tgt = true -> departs f src tgt = false -> assign_ok f src tgt = true ->
+  wfw src -> wfw tgt -> in_range src v ->
+  bit_copy src tgt = true \/ (representable tgt (num src v) /\ num tgt (conv_val src tgt v) = num src v).
+Proof.
+  intros Ha Hd Hok Ws Wt Hv. rewrite (matrix_partial f src tgt Ha Hd) in Hok. apply doc_no_trunc; assumption.
+Qed.
+
+(** ** where the code departs: witnesses *)
+
+(** a run-time integer into Unsigned[3]: accepted, emitted as to_unsigned(x, 3): 9 becomes 1, -1 is a range error *)
+Lemma refuted_integer_truncated :
+  assign_ok FNextOp CInteger (CU 3) = true /\ doc_ok CInteger (CU 3) = false /\
+  ceval (cast_emit (CU 3) (CU 3) CInteger) (VI 9) = Ok (VV KUns 3 1) /\
+  ceval (cast_emit (CU 3) (CU 3) CInteger) (VI (-1)) = Err ERange.
+Proof. vm_compute. repeat split. Qed.
+
+(** Signal[Unsigned[4]](signed) inside a context: accepted, emitted as unsigned(std_logic_vector(x)): -1 becomes 15 *)
+Lemma refuted_decl_reinterprets :
+  assign_ok FDeclSig (CS 4) (CU 4) = true /\ doc_ok (CS 4) (CU 4) = false /\
+  ceval (cast_emit (CU 4) (CU 4) (CS 4)) (VV KSgn 4 15) = Ok (VV KUns 4 15) /\ num (CS 4) 15 = -1 /\
+  assign_ok FDeclVar (CU 4) (CS 4) = true /\ doc_ok (CU 4) (CS 4) = false.
+Proof. vm_compute. repeat split. Qed.
+
+(** an output port of a sub-entity: the check is made towards the port, so narrowing is accepted and widening rejected *)
+Lemma refuted_port_out_reversed :
+  assign_ok FPortOut (CU 8) (CU 4) = true /\ doc_ok (CU 8) (CU 4) = false /\
+  assign_ok FPortOut (CU 4) (CU 8) = false /\ doc_ok (CU 4) (CU 8) = true /\
+  assign_ok FPortOut (CS 4) (CU 8) = false /\ assign_ok FPortOut (CU 2) (CS 4) = false /\ assign_ok FPortOut (CS 4) (CU 2) = true.
+Proof. vm_compute. repeat split. Qed.
+
+Lemma refuted_port_in_untyped : assign_ok FPortIn CInteger CBit = true /\ doc_ok CInteger CBit = false.
+Proof. vm_compute. split; reflexivity. Qed.
+
+Lemma refuted_truthiness :
+  assign_ok FNextOp (CU 4) CBool = true /\ doc_ok (CU 4) CBool = false /\
+  assign_ok FDeclStatic (CIntLit 5) CBool = true /\ doc_ok (CIntLit 5) CBool = false.
+Proof. vm_compute. repeat split. Qed.
+
+(** documented conversions that are rejected *)
+Lemma over_rejected :
+  assign_ok FIfB (CU 2) CInteger = false /\ assign_ok FIfA (CU 2) CInteger = true /\ doc_ok (CU 2) CInteger = true /\
+  assign_ok (FSlice KS) CNull (CU 2) = false /\ doc_ok CNull (CU 2) = true /\
+  assign_ok FPortIn CNull (CU 2) = false.
+Proof. vm_compute. repeat split. Qed.
+
+(** the join of Unsigned[2] and a run-time integer is Unsigned[2]: the integer branch is truncated *)
+Lemma refuted_join : join (CU 2) CInteger = Some (CU 2) /\ doc_ok CInteger (CU 2) = false /\ join CInteger (CU 2) = None.
+Proof. vm_compute. repeat split. Qed.
+
+(** [isinstance(result_type, Signed)] on a class is False: vectors of different width are never joined *)
+Lemma join_width_quirk n m : n <> m -> join (CU n) (CU m) = None /\ join (CS n) (CS m) = None.
+Proof.
+  intros H. unfold join. cbn [is_runtime join_adjust vec_of]. destruct (N.eqb_spec n m); [contradiction|]. split; reflexivity.
+Qed.
+
+(** non-vacuity *)
+Example ex_applies : applies (FSlice KU) (CU 2) (CS 3) = true /\ departs (FSlice KU) (CU 2) (CS 3) = false /\
+  assign_ok (FSlice KU) (CU 2) (CS 3) = true /\ wfw (CU 2) /\ wfw (CS 3) /\ in_range (CU 2) 3.
+Proof. vm_compute. repeat split; try discriminate; reflexivity. Qed.
+
+Example ex_value :
+  ceval (cast_emit (root_kind (FSlice KU) (CS 3)) (CS 3) (CU 2)) (enc (CU 2) 3) = Ok (VV KUns 3 3).
+Proof. reflexivity. Qed.
+
+Example ex_sign_extend :
+  ceval (cast_emit (CS 4) (CS 4) (CS 2)) (enc (CS 2) 3) = Ok (VV KSgn 4 15) /\ conv_val (CS 2) (CS 4) 3 = 15 /\
+  num (CS 2) 3 = -1 /\ num (CS 4) 15 = -1.
+Proof. vm_compute. repeat split. Qed.
+
+Example ex_join : join (CBV 4) (CS 4) = Some (CBV 4) /\ dep_join (CBV 4) (CBV 4) = false /\ dep_join (CS 4) (CBV 4) = false /\
+  join CBool CBit = Some CBit.
+Proof. vm_compute. repeat split. Qed.
